@@ -2,6 +2,7 @@
 //! files inside f. Oracle from the statement ("file k is inside folder f"), for normalised
 //! relative paths (no leading/trailing '/', no empty components), as produced by
 //! pathdiff::diff_paths and by the source reader:  k == f  or  k starts with f + "/".
+//! Paths are valid UTF-8 over {a, b, /, é}.
 use super::src_kani::Src;
 #[cfg(kani)]
 use super::src_kani::KaniSrc;
@@ -16,7 +17,9 @@ fn sym_path<'a, S: Src, const M: usize>(s: &mut S, buf: &'a mut [u8; M]) -> &'a 
     let mut i = 0;
     while i < M {
         let c = s.u8();
-        s.assume(c == b'a' || c == b'b' || c == b'/');
+        // ASCII letters, the separator, and the two bytes of 'é' (U+00E9): a multi-byte
+        // character makes byte offsets and char offsets differ
+        s.assume(c == b'a' || c == b'b' || c == b'/' || c == 0xC3 || c == 0xA9);
         buf[i] = c;
         i += 1;
     }
